@@ -103,7 +103,9 @@ func (t *Directive) Validate(root *Root) (errs []error) {
 		errs = append(errs, validateName(a.core, "argument", a.N, a.line, a.col)...)
 		if co, _ := a.Type.(InCoercer); co != nil && IsInputType(a.Type) {
 			if a.Default != nil {
-				if v, err := co.CoerceIn(a.Default); err != nil {
+				if defaultLoop(a.Type, a.Default, map[*InputField]bool{}) {
+					// Reported for the input object. Coercing it would never end.
+				} else if v, err := co.CoerceIn(a.Default); err != nil {
 					errs = append(errs, fmt.Errorf("%w at %d:%d", err, a.line, a.col))
 				} else {
 					// Might as well replace the coerced value since it is really
